@@ -9,8 +9,9 @@
                      '+' -> %2B -> url.QueryUnescape -> utf8.ValidString
    builtinEscape   : byte loop; a byte that "should be escaped" starts a rune,
                      of which only the FIRST UTF-16 unit is written
-   builtinUnescape : byte loop; %uXXXX / %XX give utf16.Decode of one unit
-                     (a surrogate becomes U+FFFD); any other BYTE becomes a rune
+   builtinUnescape : byte loop collecting UTF-16 units: %uXXXX / %XX give their
+                     unit, any other character (a whole rune) its units; the
+                     units are decoded with utf16.Decode at the end
 
    Contracts of the Go library used (url.QueryEscape / QueryUnescape,
    utf8.ValidString, utf16.Decode, regexp on these fixed patterns) are written
@@ -20,10 +21,11 @@
    Deviations from ES5 reproduced by this model (classes in C13/Corr.v):
      (4  escape("@") = "%40" was repaired by d183de8; class retired)
      5  escape of an astral character writes only the high surrogate
-     6  unescape copies the UTF-8 BYTES of a non-ASCII character as Latin-1
-     7  unescape("%uD83D%uDE00"): surrogate escapes become U+FFFD
-     8  a lone surrogate in the argument is read as U+FFFD
-        (escape, unescape, decodeURI, decodeURIComponent) *)
+     (6 unescape of UTF-8 bytes as Latin-1 and 7 unpaired surrogate escapes
+        were repaired by 6dc8dfa; classes retired)
+     8  a lone surrogate cannot live in a Go string: one in the argument is read
+        as U+FFFD (escape, unescape, decodeURI, decodeURIComponent), and an
+        unpaired %uD800..%uDFFF escape makes unescape return U+FFFD *)
 From Coq Require Import ZArith Bool List Lia.
 From Otto Require Import C13.SpecURI.
 Import ListNotations.
@@ -150,12 +152,11 @@ Definition decode_model (reserve : bool) (l : list Z) : option (list Z) :=
       end
   end.
 
-(* ---------- switches for the repairs in proposed_fixes/C13-*.diff ----------
-   All false on the recorded tree.  When a repair is applied to otto, the
-   coordinator flips its switch (and removes the matching ..._refuted theorem
-   and the open finding), so that the model keeps describing the code. *)
-Definition fixed_escape_astral : bool := false.   (* C13-escape-astral.diff *)
-Definition fixed_unescape_units : bool := false.  (* C13-unescape-units.diff *)
+(* ---------- switch for the repair in proposed_fixes/C13-escape-astral.diff ----------
+   false on the recorded tree.  When the repair is applied to otto the switch is
+   flipped (and the ..._refuted theorem and the open finding are removed), so
+   that the model keeps describing the code. *)
+Definition fixed_escape_astral : bool := false.
 
 (* ---------- escape ---------- *)
 (* builtinShouldEscape: A-Z a-z 0-9 @ * _ + - . / *)
@@ -171,25 +172,9 @@ Definition escape_rune (r : Z) : list Z :=
 Definition escape_model (l : list Z) : list Z := flat_map escape_rune (utf16_decode l).
 
 (* ---------- unescape ---------- *)
-Definition rune_of_unit (v : Z) : Z := if is_surr v then 0xFFFD else v.   (* utf16.Decode([]uint16{v})[0] *)
-Fixpoint unescape_bytes (fuel : nat) (l : list Z) : list Z :=
-  match l with
-  | [] => []
-  | c :: r =>
-      match fuel with
-      | O => l
-      | S f =>
-          if c =? 37 then
-            match unescape_at r with
-            | Some (v, r') => rune_of_unit v :: unescape_bytes f r'
-            | None => c :: unescape_bytes f r
-            end
-          else c :: unescape_bytes f r
-      end
-  end.
-(* after C13-unescape-units.diff: the loop collects UTF-16 units (an escape gives
-   its unit, any other character its units) and decodes them at the end; the
-   escapes are ASCII, so the byte loop is a loop over the runes of the text *)
+(* builtinUnescape (commit 6dc8dfa): the loop collects UTF-16 units (an escape
+   gives its unit, any other character its units) and decodes them at the end;
+   the escapes are ASCII, so the byte loop is a loop over the runes of the text *)
 Fixpoint unescape_units (fuel : nat) (l : list Z) : list Z :=
   match l with
   | [] => []
@@ -206,8 +191,4 @@ Fixpoint unescape_units (fuel : nat) (l : list Z) : list Z :=
       end
   end.
 Definition unescape_model (l : list Z) : list Z :=
-  if fixed_unescape_units then
-    let rs := utf16_decode l in utf16_encode (utf16_decode (unescape_units (length rs) rs))
-  else
-    let bytes := utf8_encode (utf16_decode l) in
-    utf16_encode (unescape_bytes (length bytes) bytes).
+  let rs := utf16_decode l in utf16_encode (utf16_decode (unescape_units (length rs) rs)).
